@@ -5,13 +5,13 @@
            or its default when nothing connects).
    Impl  = Edges.deriv_impl / value_impl (Edges.v: group edges -> merge per target variable keyed by SOURCE NODE ->
            per source node weight matrix by `+=` or indexed form -> sum of several sources -> wire producers + edge operator). *)
-From Coq Require Import List String ZArith QArith Qcanon Bool Arith.
+From Coq Require Import List String ZArith QArith Qcanon Bool Arith Permutation.
 From PV Require Import Expr Net Edges EdgesProofs.
 From PV Require Import PyLib LabelGen LabelGenEquiv.
 Import ListNotations.
 Open Scope Qc_scope.
 
-(* The full-strength statement.  It is FALSE of the faithful model (C01_refuted_D3 below). *)
+(* The full-strength statement.  It is FALSE of the faithful model of the code as it is (C01_refuted_D3 below). *)
 Definition C01_full_statement : Prop :=
   forall n, wf n = true -> forall st pa v, deriv_impl n st pa v = deriv n st pa v.
 
@@ -23,9 +23,12 @@ Definition C01_full_statement : Prop :=
        user names, which make the real code raise or compute something else (D22 and relatives), nor the compile-time crash of
        the expression parser on a sum-substituted input of degree >= 3;
    (2) pipeline: the composition covers grouping, merging, the matrix / indexed forms, the multi-source sum, the wiring of
-       producers and edge operator and the recursive evaluation of algebraic variables; NOT covered by a theorem: the
-       textual rewrite of whole equations through sympy (only its algebraic effect, C01_substitute_input_term), the
-       evaluation order chosen by _sort_var_updates, code printing.  Those are exercised by the correspondence run only. *)
+       producers and edge operator and the recursive evaluation of algebraic variables; separately proved: hierarchy
+       flattening (the C01_hierarchy theorems), the evaluation order of _sort_var_updates (C01_sort_topological,
+       C01_sorted_run_solves: the sorted flat program solves the algebraic equations; that this solution is the recursive
+       `value` is not yet a theorem), unique labels (C01_names).  NOT covered by a theorem: the textual rewrite of whole
+       equations through sympy (only its algebraic effect, C01_substitute_input_term) and code printing.  Those are
+       exercised by the correspondence run only. *)
 Theorem C01_partial : forall n, wf n = true -> guard n = true ->
   forall st pa v, deriv_impl n st pa v = deriv n st pa v.
 Proof.
@@ -46,10 +49,18 @@ Print Assumptions C01_input_layer.
 
 (* D3: two different variables of ONE source node projecting to the same target variable: only the first variable is
    used, with the sum of both weights.  Witness replayed on the real code: corpus/C01/d3_witness.json (13/8 vs 17/8). *)
-Theorem C01_refuted_D3 : exists n st pa v, wf n = true /\ guard_names n = true /\ guard_labels n = true /\
+Theorem C01_refuted_D3 : fixed_D3 = false -> exists n st pa v, wf n = true /\ guard_names n = true /\ guard_labels n = true /\
   deriv_impl n st pa v <> deriv n st pa v.
 Proof. exact d3_refutes. Qed.
 Print Assumptions C01_refuted_D3.
+
+(* The repair of D3 (/verif/fixes/proposed_fix_C01_D3.diff: _collect_from_edges keyed by source node AND source variable) is
+   the model switch `Edges.fixed_D3`.  Once it is `true` the D3 guard holds of every network and the full statement is a
+   theorem of the mechanism model; what then remains between C01_full_statement and the real code are the name-clash /
+   parser classes (guard_names, guard_labels, guard_parser), which the model does not describe. *)
+Theorem C01_full_when_D3_fixed : fixed_D3 = true -> C01_full_statement.
+Proof. exact (fun Hfix n _ => full_when_fixed Hfix n). Qed.
+Print Assumptions C01_full_when_D3_fixed.
 
 (* key lemmas, one per branch of _generate_edge_equation ------------------------------------------------------------ *)
 (* matrix branch (`weight_mat[row, col] += w`, then matvec): equals the edge sum for ANY list of unit edges *)
@@ -79,7 +90,7 @@ Print Assumptions C01_edge_sum_any_branch.
 
 (* several source nodes: the sum of the per-source contributions is the sum over all grouped edges *)
 Theorem C01_multi_source_sum : forall sv ges dflt, Forall aligned_g ges ->
-  forallb (fun p : string * list gedge => forallb (fun g => vid_eqb (gsrc g) (first_src (fst p) (snd p))) (snd p))
+  forallb (fun p : vid * list gedge => forallb (fun g => vid_eqb (gsrc g) (first_src (fst p) (snd p))) (snd p))
           (merge_groups ges) = true ->
   edge_value sv (collect_from_edges ges) dflt = osum (map (Gg sv) ges).
 Proof. exact multi_source_sum. Qed.
@@ -138,6 +149,52 @@ Theorem C01_names : forall ls names,
     (forall r, In r (filter not_time rs) -> ~ In r (py_keys names)).
 Proof. exact unique_labels_distinct. Qed.
 Print Assumptions C01_names.
+
+(* hierarchy ------------------------------------------------------------------------------------------------------- *)
+(* the denotation does not depend on the order of the edge list ... *)
+Theorem C01_edge_order_irrelevant : forall N E1 E2, Permutation E1 E2 -> forall st pa v,
+  deriv {| nnodes := N; nedges := E1 |} st pa v = deriv {| nnodes := N; nedges := E2 |} st pa v.
+Proof. exact deriv_edge_order. Qed.
+Print Assumptions C01_edge_order_irrelevant.
+
+(* ... an edge declared inside the sub-circuit `sn` may equally be declared one level up under the path sn/..., at any
+   depth (cequiv is a congruence for sub-circuit contexts, reflexive, symmetric, transitive) ... *)
+Theorem C01_hoist_edge : forall ns l1 sn ns' subs' e es' l2 es,
+  cequiv (Circ ns (l1 ++ (sn, Circ ns' subs' (e :: es')) :: l2) es)
+         (Circ ns (l1 ++ (sn, Circ ns' subs' es') :: l2) (pedge (sn ++ "/") e :: es)).
+Proof. exact hoist_edge. Qed.
+Print Assumptions C01_hoist_edge.
+
+Theorem C01_hierarchy_context : forall ns l1 sn c1 c2 l2 es, cequiv c1 c2 ->
+  cequiv (Circ ns (l1 ++ (sn, c1) :: l2) es) (Circ ns (l1 ++ (sn, c2) :: l2) es).
+Proof. exact cequiv_context. Qed.
+Print Assumptions C01_hierarchy_context.
+
+(* ... and equivalent templates have the same vector field: where an edge is declared in the hierarchy is irrelevant *)
+Theorem C01_hierarchy_preserves_deriv : forall c1 c2, cequiv c1 c2 ->
+  forall st pa v, deriv (flatten c1) st pa v = deriv (flatten c2) st pa v.
+Proof. exact cequiv_deriv. Qed.
+Print Assumptions C01_hierarchy_preserves_deriv.
+
+(* evaluation order --------------------------------------------------------------------------------------------------- *)
+(* _sort_var_updates (Edges.sort_updates): when it does not report mutually dependent updates, its output is a permutation
+   of the updates in which no update reads the left-hand side of an update at the same or a later position (itself
+   excepted), for any number of updates with pairwise distinct left-hand sides *)
+Theorem C01_sort_topological : forall (A : Type) (lhs_of : A -> string) (deps_of : A -> list string) fuel rem out,
+  sort_updates A lhs_of deps_of fuel rem = (out, true) -> NoDup (map lhs_of rem) ->
+  Permutation rem out /\ topo_from A lhs_of deps_of out [].
+Proof. exact sort_spec. Qed.
+Print Assumptions C01_sort_topological.
+
+(* running the assignments in that order leaves a memory that solves the algebraic equations: every assigned variable
+   equals its defining expression evaluated in the FINAL memory (no stale read), nothing else is touched *)
+Theorem C01_sorted_run_solves : forall prog out env, sort_assigns prog = (out, true) -> NoDup (map fst prog) ->
+  (forall p, In p prog -> ~ In (fst p) (fv (snd p))) ->
+  Permutation prog out /\
+  (forall p, In p prog -> run_assigns out env (fst p) = eval (run_assigns out env) (snd p)) /\
+  (forall x, ~ In x (map fst prog) -> run_assigns out env x = env x).
+Proof. exact sorted_run_solves. Qed.
+Print Assumptions C01_sorted_run_solves.
 
 (* non-vacuity: hierarchy depth 1, three nodes, a same-node producer, two parallel edges, two source nodes, an unconnected
    input with an overridden default — satisfies wf and every guard; v' = -1/8 + (3 + 3/4*1/2 - 9/16) + 2*4 = 171/16 *)
